@@ -366,6 +366,8 @@ def run(fn, args, stop_before=None, max_steps=4000, call_model=None, stop_after=
             return Ref(SubSlice(d0, lo_, hi_))
         if name in ("min", "max") and len(argv) == 2 and all(isinstance(x, int) and not isinstance(x, bool) for x in argv):
             return min(argv) if name == "min" else max(argv)
+        if name == "abs_diff" and len(argv) == 2 and all(isinstance(x, int) and not isinstance(x, bool) for x in argv):
+            return abs(argv[0] - argv[1])
         if name == "into_iter" and isinstance(d0, (Iter,)):
             return d0
         if name == "into_iter" and isinstance(a0, Struct):
